@@ -1,6 +1,9 @@
 package bebop
 
-import "strings"
+import (
+	"sort"
+	"strings"
+)
 
 func (f File) customRecordTypes() map[string]struct{} {
 	out := make(map[string]struct{})
@@ -22,6 +25,45 @@ func (f File) customRecordTypes() map[string]struct{} {
 		}
 	}
 	return out
+}
+
+// sortedFields returns the message's fields ordered by index.
+func (msg Message) sortedFields() []Field {
+	nums := make([]int, 0, len(msg.Fields))
+	for num := range msg.Fields {
+		nums = append(nums, int(num))
+	}
+	sort.Ints(nums)
+	fields := make([]Field, len(nums))
+	for i, num := range nums {
+		fields[i] = msg.Fields[uint8(num)]
+	}
+	return fields
+}
+
+// sortedFields returns the union's branches ordered by discriminator.
+func (u Union) sortedFields() []UnionField {
+	nums := make([]int, 0, len(u.Fields))
+	for num := range u.Fields {
+		nums = append(nums, int(num))
+	}
+	sort.Ints(nums)
+	fields := make([]UnionField, len(nums))
+	for i, num := range nums {
+		fields[i] = u.Fields[uint8(num)]
+	}
+	return fields
+}
+
+// fields returns the fields of the struct or message defined by this branch.
+func (uf UnionField) fields() []Field {
+	if uf.Struct != nil {
+		return uf.Struct.Fields
+	}
+	if uf.Message != nil {
+		return uf.Message.sortedFields()
+	}
+	return nil
 }
 
 // enumSizes maps every enum name to the wire size of its underlying integer.
